@@ -34,6 +34,8 @@ def oracle(chk: Check, B: int, variables: Sequence[str], blocks: Sequence[Block]
                 for st in beh:
                     s = blocks[st["block"]].step_json()
                     s["set"] = [[k, jint(v)] for k, v in st["set"].items()]
+                    s["B"] = blocks[st["block"]].B or B
+                    s["inp"] = list(st.get("inp", []))
                     steps.append(s)
                 recs.append({"B": B, "vars": list(variables), "steps": steps})
             f = scratch / f"b{b0}.json"
@@ -48,6 +50,11 @@ def oracle(chk: Check, B: int, variables: Sequence[str], blocks: Sequence[Block]
         shutil.rmtree(scratch, ignore_errors=True)
     chk.configs[:] = c01._squash(chk.configs, name)
     return out
+
+
+def bits_repr(bits) -> str:
+    by = bytes(sum(b << i for i, b in enumerate(bits[k:k + 8])) for k in range(0, len(bits) - len(bits) % 8, 8))
+    return f"{by!r}+{len(bits) % 8}bits"
 
 
 def run_behaviours(arena: Arena, behaviours: List[List[dict]]) -> Tuple[List, List[int]]:
@@ -91,7 +98,13 @@ def compare(chk: Check, arena: Arena, behaviours, results, broken, expected, blo
             blk = blocks[beh[k]["block"]]
             ev = {v: ival(x) for v, x in e["vals"].items()}
             diffs = []
+            if g["out"] != e["out"]:
+                diffs.append(f"output: got {bits_repr(g['out'])} expected {bits_repr(e['out'])}")
+            if g["inused"] != e["inused"]:
+                diffs.append(f"input bits consumed: got {g['inused']} expected {e['inused']}")
             for v in arena.vars:
+                if v in e.get("dontcare", []):
+                    continue
                 if g["vals"][v] != ev[v]:
                     diffs.append(f"{v}: got {hex(g['vals'][v])} expected {hex(ev[v])}")
             if g["br"] != e["br"]:
@@ -103,8 +116,24 @@ def compare(chk: Check, arena: Arena, behaviours, results, broken, expected, blo
             if not g["clean"]:
                 diffs.append("a variable op is left with bits outside its data field")
             if diffs:
-                chk.violation({"macro": blk.name, "what": "wrong-result"},
+                # how it differs (only used to tell a listed known finding from any other failure of the same macro)
+                pattern = "other"
+                if g["out"] != e["out"] and len(g["out"]) == len(e["out"]) and len(g["out"]) % 8 == 0:
+                    gb = [g["out"][q:q + 8] for q in range(0, len(g["out"]), 8)]
+                    if [x for ch in reversed(gb) for x in ch] == e["out"] and all(g["vals"][v] == ev[v] for v in arena.vars):
+                        pattern = "characters-in-reverse-order"
+                elif g["out"] == e["out"] and blk.key == "in_bytes" and blk.n > 1:
+                    v0 = blk.v[0]
+                    nb = blk.n
+                    lowg = (g["vals"][v0] & ((1 << (8 * nb)) - 1)).to_bytes(nb, "little")
+                    lowe = (ev[v0] & ((1 << (8 * nb)) - 1)).to_bytes(nb, "little")
+                    others = all(g["vals"][v] == ev[v] for v in arena.vars if v != v0) and (g["vals"][v0] >> (8 * nb)) == (ev[v0] >> (8 * nb))
+                    if lowg == lowe[::-1] and others:
+                        pattern = "bytes-in-reverse-order"
+                chk.violation({"macro": blk.name, "what": "wrong-result", "pattern": pattern},
                               f"{tag}: step {k} {blk.fj.format(n=blk.n, m=blk.m, sh=blk.sh, c=blk.c, **{f'v{q}': x for q, x in enumerate(blk.v)}, **{b: b for b in blk.branches})}: " + "; ".join(diffs[:4]),
                               {"behaviour": beh[:k + 1], "step": k, "got": g, "expected": {"vals": {v: hex(x) for v, x in ev.items()}, "br": e["br"]}})
                 break
+            if e.get("dontcare"):
+                break        # a destination is unspecified from here on (documented error branch): the rest is not judged
     return nsteps
